@@ -56,16 +56,16 @@ def check(ctx):
     # width of the argument: a caller that unpacks the half float as a *signed* short ('h') hands in a sign-extended (possibly
     # negative) int, so bits above 15 are not known to be zero and every field must be masked, the sign bit included
     signed_callers = []
-    for cf_ in m.mod(LOC).all_funcs():
-        fmt = {norm(t): fold_in(cf_, st.value.args[0]) for st in walk_own(cf_.node) if isinstance(st, ast.Assign) and isinstance(st.value, ast.Call)
-               and dotted(st.value.func) == 'struct.unpack' and st.value.args for t in st.targets}
-        for c in walk_own(cf_.node):
-            if isinstance(c, ast.Call) and dotted(c.func) == 'fp16_to_float' and c.args and isinstance(c.args[0], ast.Subscript):
-                fm, k = fmt.get(norm(c.args[0].value)), fold_in(cf_, c.args[0].slice)
-                if isinstance(fm, str) and isinstance(k, int):
-                    codes = [ch for ch in fm if ch.isalpha()]
-                    if k < len(codes) and codes[k] == 'h':
-                        signed_callers.append('%s:%d' % (cf_.qualname, c.lineno))
+    la_ = m.func(LOC, 'Localization._decode_lh_angle')
+    fm, res_ = lh_angle_symbolic(la_)
+    if isinstance(fm, str):
+        codes = [ch for ch in fm if ch.isalpha()]
+        import re as _re
+        for v in res_.values():
+            for txt in (v if isinstance(v, list) else [v]):
+                for k in _re.findall(r'fp16_to_float\(F(\d+)\)', txt or ''):
+                    if int(k) < len(codes) and codes[int(k)] == 'h':
+                        signed_callers.append('%s:field %s' % (la_.qualname, k))
     width = 32 if signed_callers else 16
     if signed_callers:
         ctx.note('fp16_to_float receives signed shorts from %s: fields must be masked (argument modelled %d bits wide)' % (signed_callers[:2], width))
@@ -81,9 +81,18 @@ def check(ctx):
     shift = [a[2] for s, a in top if a[0] == 'f' and a[1] is ast.LShift]
     ctx.inst('R2', f, 'rebias=127-15', len(rebias) == 1 and fold_in(f, rebias[0]) == 112, 'exponent re-bias must be 127 - 15 = 112')
     ctx.inst('R2', f, 'fraction-shift=13', len(shift) == 1 and fold_in(f, shift[0]) == 13, 'fraction shift must be 23 - 10 = 13')
-    res = [s for s in f.node.body if isinstance(s, ast.Assign) and norm(s.targets[0]) == 'result']
-    ctx.need(len(res) == 1, 'fp16_to_float: result assembly not found')
-    rb = B_.evaluate(res[0].value, sc, {'s': 's', 'e': 'e', 'f': 'f'}, {'s': 1, 'e': 8, 'f': 23})
+    # the word assembled on the normal path: the argument of the final reinterpretation, looked through one local and int()
+    last = [r for r in f.node.body if isinstance(r, ast.Return)]
+    ctx.need(len(last) == 1, 'fp16_to_float: final return not found')
+    okf, word = reinterpret(last[0].value)
+    ctx.need(okf, 'fp16_to_float: final return does not reinterpret an integer word')
+    if isinstance(word, ast.Name):
+        res = [s for s in f.node.body if isinstance(s, ast.Assign) and norm(s.targets[0]) == word.id]
+        ctx.need(len(res) == 1, 'fp16_to_float: result assembly not found')
+        word = res[0].value
+    if isinstance(word, ast.Call) and norm(word.func) == 'int' and len(word.args) == 1:
+        word = word.args[0]
+    rb = B_.evaluate(word, sc, {'s': 's', 'e': 'e', 'f': 'f'}, {'s': 1, 'e': 8, 'f': 23})
     ctx.inst('R2', f, 'assembly', B_.is_input_field(rb, 31, 1, 's') and B_.is_input_field(rb, 23, 8, 'e') and B_.is_input_field(rb, 0, 23, 'f'),
              'float32 word must be s<<31 | e<<23 | f; bits %s' % B_.describe(rb, 32)[:80])
     loops = [w for w in walk_own(f.node) if isinstance(w, ast.While)]
@@ -147,6 +156,8 @@ def check(ctx):
         for k in g.fact_keys_at(n):
             if k[1] and k[0].endswith('== len(%s)' % et.params[1]):
                 tbl[int(k[0].split(' ')[0])] = fold_in(et, n.ast.value)
+            if not k[1] and k[0] == '0 < len(%s)' % et.params[1] and not any(kk[1] and kk[0].endswith('== len(%s)' % et.params[1]) for kk in g.fact_keys_at(n)):
+                tbl[0] = fold_in(et, n.ast.value)        # len(element) == 0 is kept as `not 0 < len(element)`
     ctx.inst('R4', et, 'type-table', tbl == {0: 0, 1: 1, 3: 2, 7: 3}, 'element length -> type code table %s, expected {0:0, 1:1, 3:2, 7:3}' % tbl)
     p4 = m.func(TRJ, 'Poly4D.pack')
     seq = [norm(s.value) for s in p4.node.body if isinstance(s, ast.AugAssign)]
@@ -198,15 +209,58 @@ def check(ctx):
     st = {norm(s.targets[0]): norm(s.value) for s in walk_own(inc.node) if isinstance(s, ast.Assign)}
     ctx.inst('R6', inc, 'type+payload', st.get('pk_type') == "struct.unpack('<B', packet.data[:1])[0]" and st.get('data') == 'packet.data[1:]', 'type = byte 0, payload from byte 1')
     la = m.func(LOC, 'Localization._decode_lh_angle')
-    st = {norm(s.targets[0]): norm(s.value) for s in walk_own(la.node) if isinstance(s, ast.Assign)}
-    ctx.inst('R6', la, 'lh-format', st.get('raw_data') == "struct.unpack('<Bfhhhfhhh', %s)" % la.params[1], 'angle stream record is <Bfhhhfhhh')
-    ctx.inst('R6', la, 'lh-basestation', st.get("decoded_data['basestation']") == 'raw_data[0]', 'base station = field 0')
+    fmt, res = lh_angle_symbolic(la)
+    ctx.inst('R6', la, 'lh-format', fmt == '<Bfhhhfhhh', 'angle stream record is <Bfhhhfhhh; found %r' % (fmt,))
+    ctx.inst('R6', la, 'lh-basestation', res.get("'basestation'") == 'F0', 'base station = field 0; found %s' % res.get("'basestation'"))
     for axis, base in (('x', 1), ('y', 5)):
-        ctx.inst('R6', la, 'lh-%s0' % axis, st.get("decoded_data['%s'][0]" % axis) == 'raw_data[%d]' % base, 'sensor 0 angle = base angle (field %d)' % base)
+        got = res.get("'%s'" % axis)
+        got = got if isinstance(got, list) else [None] * 4
+        ctx.inst('R6', la, 'lh-%s0' % axis, got[0:1] == ['F%d' % base], 'sensor 0 angle = base angle (field %d); found %s' % (base, got[0:1]))
         for k in (1, 2, 3):
-            want = 'raw_data[%d] - fp16_to_float(raw_data[%d])' % (base, base + k)
-            ctx.inst('R6', la, 'lh-%s%d' % (axis, k), st.get("decoded_data['%s'][%d]" % (axis, k)) == want, 'sensor %d %s angle = %s; found %s' % (k, axis, want, st.get("decoded_data['%s'][%d]" % (axis, k))))
+            want = 'F%d - fp16_to_float(F%d)' % (base, base + k)
+            ctx.inst('R6', la, 'lh-%s%d' % (axis, k), got[k:k + 1] == [want], 'sensor %d %s angle = %s; found %s' % (k, axis, want, got[k:k + 1]))
 
+
+def lh_angle_symbolic(la):
+    """Symbolic result of _decode_lh_angle: (struct format, {key text: value text or list of texts}) with the unpacked fields written F0..Fn,
+    whether they are addressed as raw[k] or through names bound by tuple unpacking."""
+    env, fmt, out = {}, None, {}
+
+    class S(ast.NodeTransformer):
+        def visit_Subscript(self, n):
+            self.generic_visit(n)
+            if isinstance(n.value, ast.Name) and env.get(n.value.id) == '<record>' and isinstance(n.slice, ast.Constant) and isinstance(n.slice.value, int):
+                return ast.Name(id='F%d' % n.slice.value, ctx=ast.Load())
+            return n
+
+        def visit_Name(self, n):
+            v = env.get(n.id)
+            if isinstance(v, str) and v.startswith('F'):
+                return ast.Name(id=v, ctx=ast.Load())
+            return n
+    import copy as _copy
+    for st in la.node.body:
+        if not isinstance(st, ast.Assign) or len(st.targets) != 1:
+            continue
+        t, v = st.targets[0], st.value
+        if isinstance(v, ast.Call) and dotted(v.func) == 'struct.unpack' and len(v.args) == 2 and norm(v.args[1]) == la.params[1]:
+            fmt = fold_in(la, v.args[0])
+            if isinstance(t, ast.Name):
+                env[t.id] = '<record>'
+            elif isinstance(t, (ast.Tuple, ast.List)):
+                for k, e in enumerate(t.elts):
+                    if isinstance(e, ast.Name):
+                        env[e.id] = 'F%d' % k
+            continue
+        val = S().visit(_copy.deepcopy(v))
+        if isinstance(t, ast.Subscript) and isinstance(t.value, ast.Name):                  # decoded[key] = ...
+            key = norm(t.slice)
+            out[key] = [norm(e) for e in val.elts] if isinstance(val, ast.List) else norm(val)
+        elif isinstance(t, ast.Subscript) and isinstance(t.value, ast.Subscript) and isinstance(t.value.value, ast.Name):   # decoded[key][i] = ...
+            key, idx = norm(t.value.slice), fold_in(la, t.slice)
+            if isinstance(out.get(key), list) and isinstance(idx, int) and 0 <= idx < len(out[key]):
+                out[key][idx] = norm(val)
+    return fmt, out
 
 
 def led_timing_rules(ctx, rule='R5'):
@@ -235,16 +289,14 @@ def led_timing_rules(ctx, rule='R5'):
         if not conds:
             ok, why = False, 'records are appended unfiltered: an entry encoding to 00 00 00 00 ends the sequence early'
         else:
-            t = conds[-1].test
-            disj = t.values if isinstance(t, ast.BoolOp) and isinstance(t.op, ast.Or) else [t]
-            bad = []
-            for d in disj:
-                k = canon_test(d)
-                lhs = [x for x in covers if k == canon_test(ast.parse('(%s) != 0' % x, mode='eval').body)]
-                if not lhs:
-                    bad.append(norm(d))
-            ok = not bad
-            why = 'a record is appended only if one of its own bytes is non-zero; disjuncts not about an emitted byte: %s' % (bad or 'none')
+            # the record is skipped iff the test is false; the atoms that hold then must all be "<emitted byte> == 0", so that a
+            # record that passes the filter has at least one non-zero byte (any spelling: or-chain, not (... and ...), named flag inlined)
+            from ..cfg import implied as _implied
+            skipped = _implied(conds[-1].test, False)
+            zero = {canon_test(ast.parse('(%s) == 0' % x, mode='eval').body): x for x in covers}
+            bad = [repr(f) for f in skipped if not (f.pol and f.text in zero)]
+            ok = not bad and bool(skipped)
+            why = 'a record is appended only if one of its own bytes is non-zero; conditions of a skipped record that are not "<emitted byte> == 0": %s' % (bad or 'none')
     ctx.inst(rule, lt, 'no-zero-record-before-terminator', ok, why)
 
 
